@@ -15,6 +15,7 @@ from hypothesis import strategies as st
 from simkit import ctx as rctx, kernel, lifecycle as lc, oracles, seams
 from simkit.driver import digest
 from simkit.oracles import LibRaised
+from simkit.rng import sync_generators
 
 PROPERTY = "C03"
 LEVEL = "exploration"
@@ -31,13 +32,18 @@ def _ops(draw, kind, d):
     ops = []
     for _ in range(draw(st.integers(1, 7))):
         if kind == "ensemble":
-            ops.append(["advance", draw(st.sampled_from([0, 1, 1, 2, 3, 7]))])
+            if draw(st.integers(0, 5)) == 0:
+                ops.append(["restart"])
+            else:
+                ops.append(["advance", draw(st.sampled_from([0, 1, 1, 2, 3, 7]))])
             continue
-        k = draw(st.sampled_from(["step", "step", "advance", "exchange", "exchange"]))
+        k = draw(st.sampled_from(["step", "step", "advance", "exchange", "exchange", "restart"]))
         if k == "step":
             ops.append(["step"])
         elif k == "advance":
             ops.append(["advance", draw(st.sampled_from([0, 1, 2, 5, 12, 30]))])
+        elif k == "restart":
+            ops.append(["restart"])
         else:
             ops.append(["exchange", draw(st.integers(0, 2 ** 16))])
     return ops
@@ -108,6 +114,10 @@ def run_ops(h, ops, V, stats, inputs, snap, xrng):
                     _viol(V, "exchange.installed", "%s: after an exchange installing %r the last recorded sample is %r"
                           % (h.label, pos.tolist(), S[-1].tolist()))
                 stats["fault_exchange_installs_foreign_point"] += 1
+            elif name == "restart":
+                old_chain = lc.op_restart(h, "r%d" % stats["fault_crash_restart"])
+                sync_generators(h.chain, old_chain)
+                stats["fault_crash_restart"] += 1
         except lc.StepExhausted:
             stats["hmc_step_exhausted"] += 1
             return
@@ -134,6 +144,38 @@ def run_ops(h, ops, V, stats, inputs, snap, xrng):
         if ch:
             _viol(V, "inputs.unchanged", "%s: caller's input array(s) %r were modified (after %r)" % (h.label, ch, op))
         prev_len = S.shape[0]
+
+
+def pair_exchange(V, a, b, stats):
+    """In-process exchange between two samplers following the worker protocol: gather
+    (get_last(), probs[-1]) from both WITHOUT copying, then update both through the real
+    worker loop.  Afterwards each holds the other's previous point with its own value."""
+    try:
+        Sa, _ = a.rows()
+        Sb, _ = b.rows()
+        if Sa.shape[0] == 0 or Sb.shape[0] == 0:
+            return
+        xa, xb = Sa[-1].copy(), Sb[-1].copy()
+        pa = oracles.lib_call("get_last", a.chain.get_last)
+        pb = oracles.lib_call("get_last", b.chain.get_last)
+        La, Lb = a.target.logpdf(xa), b.target.logpdf(xb)
+        lc.op_exchange(a, pb, Lb, copy=False)
+        lc.op_exchange(b, pa, La, copy=False)
+    except LibRaised as e:
+        _viol(V, "op.raised", "in-process exchange: %s" % e)
+        return
+    stats["probe_in_process_pair_exchange"] += 1
+    for h, want, other in ((a, xb, "s1"), (b, xa, "s0")):
+        S, P = h.rows()
+        if not np.array_equal(S[-1], want):
+            _viol(V, "exchange.installed", "%s: after an in-process exchange with %s (positions gathered with get_last() from both, "
+                  "then installed) the last recorded sample is %r, the other sampler's previous point was %r"
+                  % (h.label, other, S[-1].tolist(), want.tolist()))
+            return
+        bad = oracles.check_probs_belong(h.chain, h.target, h.T, start=max(0, S.shape[0] - 2), label=h.label + " ")
+        for m in bad[:1]:
+            _viol(V, "probs.belong", "after an in-process exchange: %s" % m)
+            return
 
 
 def traj_digest(h):
@@ -190,6 +232,8 @@ def execute(sc):
                     V.extend(v)
                 if not V:
                     group_digests = [traj_digest(h) for h in hs]
+                if not V and G >= 2 and cfg["kind"] != "ensemble" and sc.get("pair_exchange", True):
+                    pair_exchange(V, hs[0], hs[1], stats)
                 events_digest = digest(sim.events)
     finally:
         c.sim = None
